@@ -158,3 +158,43 @@ func CellName(addr ssa.Value) string {
 	}
 	return ""
 }
+
+// RetVal returns the value a Return yields for result i, looking through go/ssa's spilling of results:
+// functions with defers store each result into a local cell, run the defers and return loads of those cells.
+// The last store into the cell in the returning block is the value.
+func RetVal(ret *ssa.Return, i int) ssa.Value {
+	if i >= len(ret.Results) {
+		return nil
+	}
+	v := ret.Results[i]
+	ld, ok := v.(*ssa.UnOp)
+	if !ok || ld.Op != token.MUL {
+		return v
+	}
+	a, ok := ld.X.(*ssa.Alloc)
+	if !ok || ld.Block() != ret.Block() {
+		return v
+	}
+	var last ssa.Value
+	for _, in := range ret.Block().Instrs {
+		if in == ssa.Instruction(ld) {
+			break
+		}
+		if st, ok := in.(*ssa.Store); ok && st.Addr == ssa.Value(a) {
+			last = st.Val
+		}
+	}
+	if last != nil {
+		return last
+	}
+	return v
+}
+
+// RetVals returns all result values of a Return (see RetVal).
+func RetVals(ret *ssa.Return) []ssa.Value {
+	out := make([]ssa.Value, len(ret.Results))
+	for i := range ret.Results {
+		out[i] = RetVal(ret, i)
+	}
+	return out
+}
